@@ -94,9 +94,12 @@ impl FakeHttps {
     pub fn proxy_url(&self) -> String { format!("http://{}", self.addr) }
 
     /// Applies the proxy and trust settings to a configuration.
-    pub fn configure(&self, config: &mut routinator::config::Config) {
+    pub fn configure(&self, config: &mut routinator::config::Config) { Self::configure_with(config, &self.proxy_url()) }
+
+    /// Same for a fake running in another process.
+    pub fn configure_with(config: &mut routinator::config::Config, proxy_url: &str) {
         config.disable_rrdp = false;
-        config.rrdp_proxies = vec![self.proxy_url()];
+        config.rrdp_proxies = vec![proxy_url.to_string()];
         config.rrdp_root_certs = vec![Self::root_cert_path()];
         config.rrdp_timeout = Some(Duration::from_secs(20));
         config.rrdp_connect_timeout = Some(Duration::from_secs(10));
